@@ -63,7 +63,7 @@ def build(family, block, rnd):
         if block == "acl-exact-src":
             acl = {1: {"action": "DENY", "src_ip": a_ip}, 5: {"action": "PERMIT"}}
         elif block == "acl-range-src":
-            acl = {1: {"action": "DENY", "src_ip": "10.0.1.0", "src_wildcard_mask": "0.0.0.255"}, 5: {"action": "PERMIT"}}
+            acl = {1: {"action": "DENY", "src_ip": a_ip, "src_wildcard_mask": "0.0.0.255"}, 5: {"action": "PERMIT"}}  # base with bits set under the mask
         elif block == "acl-exact-dst":
             acl = {2: {"action": "DENY", "dst_ip": b_ip}, 5: {"action": "PERMIT"}}
         elif block == "acl-any-any":
